@@ -305,25 +305,34 @@ package graph
 //@     use triStep(j-1)
 //@     decreases j - i
 
-// L1: no panic beyond the documented one, sizes re-established, termination
+// RemoveVertex(v): the pair {a,b} of the result is the old pair {a + [a>=v], b + [b>=v]}
+// (vertices above v move down by one); no panic beyond the documented one, termination.
+// The cached counts after RemoveVertex are covered by the bounded stand-in.
 //@ func (*DenseGraph).RemoveVertex
 //@   requires sizesDense(g) && 0 <= v
 //@   panics when v >= g.NumberOfVertices
 //@   modifies g, g.Edges, g.DegreeSequence
 //@   ensures sizesDense(g) && g.NumberOfVertices == old(g.NumberOfVertices) - 1
+//@   ensures [relation] forall b in 0..g.NumberOfVertices: forall a in 0..b: g.Edges[tri(b) + a] == old(g.Edges)[tri(b + (b >= v ? 1 : 0)) + a + (a >= v ? 1 : 0)]
 //@   opt lemmas=triMono
+//@   opt axiomatize=tri
+//@   opt patterns=simple
 //@   opt wrapcounters=NumberOfEdges,DegreeSequence
 //@   use triStep(v-1)
 //@   use triStep(g.NumberOfVertices-2)
 //@   loop 1
 //@     invariant 0 <= i && i <= v && tmp == tri(v) && v < g.NumberOfVertices && sizesDense(g) && g.NumberOfVertices == old(g.NumberOfVertices) && sameslice(g.Edges, old(g.Edges)) && sameslice(g.DegreeSequence, old(g.DegreeSequence))
+//@     invariant forall p in 0..len(g.Edges): g.Edges[p] == old(g.Edges)[p]
 //@     decreases v - i
 //@   loop 2
 //@     invariant v + 1 <= i && i <= g.NumberOfVertices && v < g.NumberOfVertices && sizesDense(g) && g.NumberOfVertices == old(g.NumberOfVertices) && sameslice(g.Edges, old(g.Edges)) && sameslice(g.DegreeSequence, old(g.DegreeSequence))
+//@     invariant forall p in 0..len(g.Edges): g.Edges[p] == old(g.Edges)[p]
 //@     decreases g.NumberOfVertices - i
 //@   loop 3
 //@     invariant v + 1 <= j && j <= g.NumberOfVertices && g.NumberOfVertices == old(g.NumberOfVertices) && 0 <= v && sameslice(g.Edges, old(g.Edges)) && len(g.Edges) == tri(g.NumberOfVertices) && g.NumberOfVertices <= 16777216 && len(g.DegreeSequence) == g.NumberOfVertices - 1
 //@     invariant (j == v+1 && oldIndex == tri(v+1) - 1 && newIndex == tri(v)) || (j > v+1 && oldIndex == tri(j-1) + v && newIndex == tri(j-2) + v)
+//@     invariant forall p in oldIndex+1..len(g.Edges): g.Edges[p] == old(g.Edges)[p]
+//@     invariant forall b in 0..j-1: forall a in 0..b: tri(b) + a < newIndex ==> g.Edges[tri(b) + a] == old(g.Edges)[tri(b + (b >= v ? 1 : 0)) + a + (a >= v ? 1 : 0)]
 //@     use triStep(j-1)
 //@     use triStep(j-2)
 //@     use triStep(j-3)
